@@ -669,7 +669,8 @@ func c06(c *core.Ctx) {
 										if call, isCall := y.(*ssa.Call); isCall && depth < 2 {
 											// only other accessors of the transaction (methods without parameters) are followed
 											if inner := core.StaticFn(call); inner != nil && core.RelPkg(inner) == "chain/types" && inner.Blocks != nil && inner != fn &&
-												inner.Signature.Recv() != nil && inner.Signature.Params().Len() == 0 && namedPtr(inner.Signature.Recv().Type()) == "Transaction" {
+												inner.Signature.Recv() != nil && inner.Signature.Params().Len() == 0 && namedPtr(inner.Signature.Recv().Type()) == "Transaction" &&
+												len(fn.Params) > 0 && len(call.Call.Args) > 0 && call.Call.Args[0] == ssa.Value(fn.Params[0]) { // of this transaction, not of a sub transaction
 												collect(inner, depth+1)
 											}
 										}
